@@ -120,6 +120,26 @@ def _xform(stmts, k, retvar):
             body = st.body[:-1] + _set_ret(retvar, st.body[-1].value, st.body[-1])
             return [ast.copy_location(ast.With(items=st.items, body=body), st)]
         raise CannotInline("return nested in a with body")
+    if isinstance(st, ast.For) and st.orelse and _has_return_list(st.orelse) and not _has_return_list(st.body) and _own_breaks(st.body) \
+            and not any(isinstance(x, (ast.Break, ast.Continue)) for k_ in K for x in ast.walk(k_) if not isinstance(k_, (ast.For, ast.While))) \
+            and sum(1 for k_ in K for _ in ast.walk(k_)) * len(_own_breaks(st.body)) <= 400:
+        # a search loop whose `else` returns (nothing found): what follows the loop runs only after a `break`, so it is
+        # placed in front of each break (`for x in it: if ok(x): break` / `else: return None` / REST  ==
+        # `for x in it: if ok(x): REST; break` / `else: ret = None`)
+        def with_k(stmts_):
+            out_ = []
+            for b_ in stmts_:
+                if isinstance(b_, ast.Break):
+                    out_ += _cp(K) + [b_]
+                elif isinstance(b_, ast.If):
+                    out_.append(ast.copy_location(ast.If(test=b_.test, body=with_k(b_.body), orelse=with_k(b_.orelse)), b_))
+                elif isinstance(b_, (ast.For, ast.While, ast.FunctionDef, ast.ClassDef)) or not _own_breaks([b_]):
+                    out_.append(b_)
+                else:
+                    raise CannotInline("break nested in %s of a search loop" % type(b_).__name__)
+            return out_
+
+        return [ast.copy_location(ast.For(target=st.target, iter=st.iter, body=with_k(st.body), orelse=_xform(st.orelse, K, retvar), type_comment=None), st)]
     if isinstance(st, ast.For) and not st.orelse and not _has_return_list(st.orelse) and not _own_breaks(st.body):
         # `for x in xs: ... return v ...` followed by K  ==  `for x in xs: ... retvar = v; break ...` / `else: K`
         body = _loop_ret(st.body, retvar)
